@@ -527,7 +527,7 @@ def run(ctx) -> core.Report:
         rep.histogram[f"n:{n}"] = rep.histogram.get(f"n:{n}", 0) + 1
         values_ok = n <= 900
         scale = term_scale(op, n, pt)  # Σ|tᵢ| for the cancellation-aware tolerance (no absolute floor)
-        base = {"family": fam, "op": op, "n": n}
+        base = {"family": fam, "op": op, "n": n, "seed": fseed}
 
         def fail(what, **kw):
             f = dict(base, what=what, **kw)
@@ -663,6 +663,17 @@ def run(ctx) -> core.Report:
         else:
             rep.nontrivial.add(("wrapped", fam, fam2, w, n))
     rep.histogram["wall_wrapped_s"] = round(time.time() - t_start, 1)
+    # ---- lifetime: one model rebuilt from fresh objects, caches never cleared
+    for fam, op, n in ([("sq", "+", 401), ("un:exp", "*", 48), ("vec:dot", "-", 401), ("aud:shared", "+", 48), ("param", "/", 401),
+                        ("vec:view:fro-sym", "+", 48)] if thorough else [(rng.choice(["sq", "vec:dot", "param"]), rng.choice("+-*/"), 401),
+                                                                          (rng.choice(["aud:shared", "un:exp", "vec:view:fro-sym", "aud:clone"]), rng.choice("+-"), 48)]):
+        fseed = rng.randint(0, 2 ** 31 - 1)
+        r = lifetime_case(fam, op, n, fseed, 12 if thorough else 5)
+        rep.histogram["lifetime"] = rep.histogram.get("lifetime", 0) + 1
+        if r is not None:
+            fails.append(r)
+        else:
+            rep.nontrivial.add(("lifetime", fam, op, n))
     # ---- history: degree questions asked while the accumulation is being built
     for fa, fb, k, op, n, fseed, where, thr in history_plan(rng, thorough):
         r = history_case(fa, fb, k, op, n, fseed, where, thr)
@@ -683,8 +694,9 @@ def run(ctx) -> core.Report:
                     rep.nontrivial.add(("history-solve", kind, n, thr))
     # ---- solve results: the same least-squares objective built three ways
     solve_ns = [2, 399, 400, 401, 900] if thorough else [2, 400, 401]
-    for n in solve_ns:
-        r = solve_case(n, ctx["seed"])
+    for i, n in enumerate(solve_ns * (len(SOLVE_METHODS) if thorough else 1)):
+        r = solve_case(n, ctx["seed"], SOLVE_METHODS[(i + ctx["seed"]) % len(SOLVE_METHODS)] if not thorough
+                       else SOLVE_METHODS[i // len(solve_ns)])
         rep.histogram["solves"] = rep.histogram.get("solves", 0) + 3
         if r is not None:
             fails.append(r)
@@ -727,7 +739,22 @@ def hist_terms(famA, famB, k, op, n, fseed):
 
 
 def query(e, i):
-    """one of the reads that populate the `_degree` slot"""
+    """one of the reads that populate the `_degree` slot; every third question also asks for another derived
+    quantity of the same object first (gradient, compiled callable, variable set) — the caches of those
+    must not leak into later answers either"""
+    import optyx.core.autodiff as AD
+    import optyx.core.compiler as C
+    from optyx.core.expressions import get_all_variables
+
+    if i % 3 == 0:
+        try:
+            vs = sorted(get_all_variables(e), key=lambda v: v.name)
+            if vs and i % 2:
+                AD.gradient(e, vs[0])
+            elif vs:
+                C.compile_expression(e, vs)
+        except RecursionError:
+            pass
     if i % 2 == 0:
         return e.degree
     return e.is_linear()
@@ -1086,6 +1113,19 @@ def _wrapped_case_inner(fam, fam2, w, n, fseed, solve, thr):
             for j in probe:
                 if not close(float(got[j]), ref_g[j], scale, rtol=1e-7):
                     return bad(f"{nm} differs from the true derivative", wrt=V[j].name, got=float(got[j]), want=ref_g[j])
+        if len(V) <= 4:
+            H, err = guarded(lambda: np.asarray(AD.compile_hessian(e, V)(x), dtype=float))
+            if err or H.shape != (len(V), len(V)):
+                return bad("compile_hessian raised / has the wrong shape", got=err or getattr(H, "shape", None))
+            for i2 in range(len(V)):
+                for j2 in range(len(V)):
+                    try:
+                        wantH = float(oracle.ref_hess(ref_e, dict(pt), V[i2].name, V[j2].name))
+                    except (oracle.NotRegular, OverflowError, ZeroDivisionError, ValueError, KeyError):
+                        continue
+                    if math.isfinite(wantH) and not close(float(H[i2, j2]), wantH, scale * 4, rtol=1e-6):
+                        return bad("compile_hessian differs from the true second derivative", wrt=(V[i2].name, V[j2].name),
+                                   got=float(H[i2, j2]), want=wantH)
         for j in probe[:4]:
             g, err = guarded(lambda: AD.gradient(e, V[j]))
             gv = grad_value(g, pt) if g is not None else None
@@ -1180,6 +1220,43 @@ def wrapped_plan(rng, thorough):
     return out
 
 
+def lifetime_case(fam, op, n, fseed, rounds):
+    """the same formula built again and again from fresh objects with the same names, earlier models dropped,
+    no cache cleared in between: every round must answer like the first"""
+    import gc
+    import optyx.core.autodiff as AD
+    from optyx.core.expressions import get_all_variables
+
+    first = None
+    ids = Ids()
+    clear_caches()
+    for r in range(rounds):
+        U, builds, names, V, extra, pt, wrts = prepare(fam, op, n, fseed)
+        e = builds["left"] if r % 2 == 0 else builds["balanced"]
+        w = [v for v in V if v.name in names][:1]
+        o = {"vars": guarded(lambda: tuple(sorted(v.name for v in get_all_variables(e)))),
+             "degree": guarded(lambda: (builds["left"].degree, builds["left"].is_linear())),
+             "value": guarded(lambda: K.fl(__import__("optyx.core.compiler", fromlist=["x"]).compile_expression(builds["left"], V)(
+                 np.array([pt[v.name] for v in V])))) if n <= 900 else (None, None),
+             "grad": guarded(lambda: struct_digest(AD.gradient(builds["left"], w[0]), ids)) if w else (None, None)}
+        for k2, (val, err) in o.items():
+            if err is not None:
+                return {"family": "lifetime", "fam": fam, "op": op, "n": n, "seed": fseed, "rounds": rounds,
+                        "what": f"{k2} raised {err} in round {r} of rebuilding one model"}
+        snap = {k2: v[0] for k2, v in o.items()}
+        if first is None:
+            first = snap
+        elif snap != first:
+            diff = [k2 for k2 in snap if snap[k2] != first[k2]]
+            return {"family": "lifetime", "fam": fam, "op": op, "n": n, "seed": fseed, "rounds": rounds,
+                    "what": f"round {r} of rebuilding one model answers differently from round 0: {diff}",
+                    "got": {k2: str(snap[k2])[:80] for k2 in diff}, "want": {k2: str(first[k2])[:80] for k2 in diff}}
+        del U, builds, e, o
+        if r % 3 == 2:
+            gc.collect()
+    return None
+
+
 def probe_vectorised_degree():
     """(x+1).sum() / X.sum() must have the degree of their term-by-term accumulations"""
     from optyx import VectorVariable, MatrixVariable
@@ -1197,8 +1274,11 @@ def probe_vectorised_degree():
             "family": "probe", "op": "+", "n": 3}
 
 
-def solve_case(n, seed):
-    """min Σ (v_{i mod 4} - c_i)² accumulated term by term / balanced / vectorised: same optimum"""
+SOLVE_METHODS = ["auto", "SLSQP", "L-BFGS-B", "trust-constr", "BFGS"]
+
+
+def solve_case(n, seed, method="auto"):
+    """min Σ (v_{i mod 4} - c_i)² accumulated term by term / balanced / vectorised: same optimum, every method"""
     from optyx import Variable, Problem
 
     res = {}
@@ -1208,10 +1288,10 @@ def solve_case(n, seed):
         terms = [(vs[i % 4] - cs[i]) ** 2 for i in range(n)]
         e = {"left": build_left, "balanced": build_balanced, "vector": build_vector}[bname]("+", terms)
         clear_caches()
-        sol, err = guarded(lambda: Problem().minimize(e).solve())
+        sol, err = guarded(lambda: Problem().minimize(e).solve(method=method))
         if err is not None:
-            return {"what": f"solve raised {err} on the {bname} build", "n": n, "build": bname, "family": "least-squares",
-                    "op": "+", "seed": seed}
+            return {"what": f"solve(method={method}) raised {err} on the {bname} build", "n": n, "build": bname,
+                    "family": "least-squares", "op": "+", "seed": seed, "method": method}
         want = {}
         for j in range(min(4, n)):
             col = [cs[i] for i in range(n) if i % 4 == j]
@@ -1220,13 +1300,13 @@ def solve_case(n, seed):
         for k2, w in want.items():
             got = sol.values.get(k2)
             if got is None or abs(got - w) > 1e-4 * (1 + abs(w)):
-                return {"what": f"solve result differs from the optimum on the {bname} build", "n": n, "build": bname,
-                        "variable": k2, "got": got, "want": w, "status": str(sol.status), "family": "least-squares",
-                        "op": "+", "seed": seed}
+                return {"what": f"solve(method={method}) result differs from the optimum on the {bname} build", "n": n,
+                        "build": bname, "variable": k2, "got": got, "want": w, "status": str(sol.status),
+                        "family": "least-squares", "op": "+", "seed": seed, "method": method}
     objs = [r[1] for r in res.values()]
     if max(objs) - min(objs) > 1e-6 * (1 + abs(objs[0])):
         return {"what": "objective values differ between builds", "n": n, "objs": objs, "family": "least-squares",
-                "op": "+", "seed": seed}
+                "op": "+", "seed": seed, "method": method}
     return None
 
 
@@ -1290,9 +1370,12 @@ def prepare(fam, op, n, fseed):
     return U, builds, names, V, extra, pt, wrts
 
 
-def check_formula(fam, op, n, seed):
+def check_formula(fam, op, n, seed, pt_seed=None):
     """the implementation-only oracle on one formula; None = holds"""
     U, builds, names, V, extra, pt, wrts = prepare(fam, op, n, seed)
+    if pt_seed:
+        prng = core.Rng(seed * 31 + pt_seed)
+        pt = {k2: prng.choice([-1.0, 1.0]) * prng.choice([0.0625, 0.3125, 0.8125, 1.0625, 1e-7 if pt_seed > 3 else 0.5625]) for k2 in pt}
     builds.pop("right", None)
     wrts = [w for w in wrts if w.name in names]
     values_ok = n <= 900
@@ -1331,6 +1414,18 @@ def check_formula(fam, op, n, seed):
 
 def search(ctx, rep):
     rng = core.Rng(ctx["seed"] + 31337)
+    # (1) the formulas on which model and implementation disagree: all builds, both thresholds, several points
+    seen = set()
+    for m in (rep.corr_mismatches if rep is not None else [])[:200]:
+        key = (m.get("family"), m.get("op"), m.get("n"), m.get("seed"))
+        if None in key or key in seen:
+            continue
+        seen.add(key)
+        for pseed in range(6):
+            r = check_formula(key[0], key[1], int(key[2]), int(key[3]), pt_seed=pseed)
+            if r is not None:
+                return r
+    # (2) the families around them, then everything
     U = gen.Universe(rng)
     fams, _ = families(U, rng)
     names = list(fams)
@@ -1346,6 +1441,10 @@ def search(ctx, rep):
 
 def replay(payload) -> bool:
     f = payload["failure"]
+    if f.get("family") == "lifetime":
+        r = lifetime_case(f["fam"], f["op"], int(f["n"]), int(f["seed"]), int(f.get("rounds", 5)))
+        print("lifetime_case:", r)
+        return r is None
     if f.get("family") == "probe":
         r = probe_vectorised_degree()
         print("probe:", r)
@@ -1365,7 +1464,7 @@ def replay(payload) -> bool:
         print("history_solve_case:", r)
         return r is None
     if f.get("family") == "least-squares":
-        r = solve_case(int(f["n"]), int(f.get("seed", 0)))
+        r = solve_case(int(f["n"]), int(f.get("seed", 0)), f.get("method", "auto"))
         print("solve_case:", r)
         return r is None
     r = check_formula(f["family"], f["op"], int(f["n"]), int(f.get("seed", 0)))
